@@ -143,3 +143,162 @@ class UnitsTracer:
         ev = self.events
         self.events = []
         return ev
+
+
+class BasisTracer:
+    """Records the primitive transitions of the basis management:
+    eigenbasis_of.__enter__/__exit__, Manager.transform_to_current_basis (when
+    it actually changes an object), Manager.register_with_basis (constructors),
+    BasisManaged.protect_basis / unprotect_basis, plus lib_begin / lib_end
+    markers.  Objects are numbered in order of appearance."""
+
+    def __init__(self, maxobj=60):
+        if os.environ.get(GUARD) != "1":
+            raise RuntimeError("tracer requires %s=1" % GUARD)
+        from quantarhei.core import managers
+        self.m = managers
+        self.man = managers.Manager()
+        self.events = []
+        self.ids = {}
+        self.keep = []            # keep objects alive so ids stay unique
+        self.maxobj = maxobj
+        self.nest = 0
+        self._orig = {}
+        self.overflow = False
+
+    def oid(self, obj):
+        k = id(obj)
+        if k not in self.ids:
+            if len(self.ids) >= self.maxobj:
+                self.overflow = True
+                return None
+            self.ids[k] = "o%d" % len(self.ids)
+            self.keep.append(obj)
+        return self.ids[k]
+
+    def state(self):
+        man = self.man
+        return dict(depth=len(man.basis_stack) - 1,
+                    ntrans=len(man.basis_transformations) - 1,
+                    flag=bool(man._in_eigenbasis_of_context))
+
+    def log(self, ev, **kw):
+        e = dict(ev=ev)
+        e.update(kw)
+        e.update(self.state())
+        self.events.append(e)
+
+    def install(self):
+        m = self.m
+        tr = self
+        Manager = m.Manager
+        eb = m.eigenbasis_of
+        BM = m.BasisManaged
+
+        o_enter, o_exit = eb.__enter__, eb.__exit__
+        o_ttcb = Manager.transform_to_current_basis
+        o_reg = Manager.register_with_basis
+        o_prot, o_unprot = BM.protect_basis, BM.unprotect_basis
+
+        def __enter__(self):
+            op = tr.oid(self.op)
+            oldtag = self.op.get_current_basis()
+            tr.nest += 1
+            ok = False
+            try:
+                r = o_enter(self)
+                ok = True
+                return r
+            finally:
+                tr.nest -= 1
+                if ok and op is not None:
+                    tr.log("enter", obj=op, oldtag=oldtag,
+                           prot=bool(self.op.is_basis_protected),
+                           tag=self.op.get_current_basis())
+
+        def __exit__(self, a, b, c):
+            man = tr.man
+            bb = man.basis_stack[-1]
+            moved = []
+            for x in man.basis_registered.get(bb, []):
+                i = tr.oid(x)
+                if i is not None and i not in moved:
+                    moved.append(i)
+            tr.nest += 1
+            try:
+                return o_exit(self, a, b, c)
+            finally:
+                tr.nest -= 1
+                tr.log("exit", exc=a is not None, moved=sorted(moved))
+
+        def transform_to_current_basis(self, operator):
+            ob = operator.get_current_basis()
+            try:
+                return o_ttcb(self, operator)
+            finally:
+                if tr.nest == 0:
+                    nb = operator.get_current_basis()
+                    if nb != ob:
+                        i = tr.oid(operator)
+                        if i is not None:
+                            tr.log("access", obj=i, oldtag=ob, tag=nb)
+
+        def register_with_basis(self, nb, operator):
+            r = o_reg(self, nb, operator)
+            # constructors call this directly; the calls made by
+            # transform_to_current_basis and __exit__ are part of those events
+            import sys
+            caller = sys._getframe(1).f_code.co_name
+            if caller not in ("transform_to_current_basis", "__exit__",
+                              "_wrapped_ttcb"):
+                i = tr.oid(operator)
+                if i is not None:
+                    tr.log("create", obj=i, tag=nb)
+            return r
+
+        def protect_basis(self):
+            o_prot(self)
+            i = tr.oid(self)
+            if i is not None:
+                tr.log("protect", obj=i, oldtag=self.get_current_basis())
+
+        def unprotect_basis(self):
+            o_unprot(self)
+            i = tr.oid(self)
+            if i is not None:
+                tr.log("unprotect", obj=i, oldtag=self.get_current_basis())
+
+        self._orig = {(eb, "__enter__"): o_enter, (eb, "__exit__"): o_exit,
+                      (Manager, "transform_to_current_basis"): o_ttcb,
+                      (Manager, "register_with_basis"): o_reg,
+                      (BM, "protect_basis"): o_prot,
+                      (BM, "unprotect_basis"): o_unprot}
+        eb.__enter__, eb.__exit__ = __enter__, __exit__
+        Manager.transform_to_current_basis = transform_to_current_basis
+        Manager.register_with_basis = register_with_basis
+        BM.protect_basis, BM.unprotect_basis = protect_basis, unprotect_basis
+
+    def uninstall(self):
+        for (cls, name), fn in self._orig.items():
+            setattr(cls, name, fn)
+        self._orig = {}
+
+    def lib_call(self, name, fn):
+        self.events.append(dict(ev="lib_begin", name=name, **self.state()))
+        exc = False
+        try:
+            return fn()
+        except BaseException:
+            exc = True
+            raise
+        finally:
+            self.events.append(dict(ev="lib_end", name=name, exc=exc,
+                                    **self.state()))
+
+    def take(self):
+        ev = self.events
+        self.events = []
+        self.ids = {}
+        self.keep = []
+        self.overflow = False
+        return ev
